@@ -256,7 +256,8 @@ qb_log_target_format_static(int32_t target, const char * format,
 			}
 
 			if (isdigit(format[format_buffer_idx])) {
-				cutoff = atoi(&format[format_buffer_idx]);
+				/* saturates: a width no int holds is a large width */
+				cutoff = strtoul(&format[format_buffer_idx], NULL, 10);
 			}
 			while (isdigit(format[format_buffer_idx])) {
 				format_buffer_idx += 1;
@@ -358,7 +359,8 @@ qb_log_target_format(int32_t target,
 			}
 
 			if (isdigit(t->format[format_buffer_idx])) {
-				cutoff = atoi(&t->format[format_buffer_idx]);
+				/* saturates: a width no int holds is a large width */
+				cutoff = strtoul(&t->format[format_buffer_idx], NULL, 10);
 			}
 			while (isdigit(t->format[format_buffer_idx])) {
 				format_buffer_idx += 1;
